@@ -1025,6 +1025,7 @@ impl Check for C13 {
             }
             eprintln!("units {} probes {} per tree {:?}", table.len(), n, per_tree);
         }
+        typos::selfcheck()?;
         handtable::check()
     }
     /// generous: every case is a sub-millisecond compile, but the harness
